@@ -222,6 +222,13 @@ impl Decoder for FrameDecoder {
     type Error = Error;
 
     fn decode(&mut self, src: &mut BytesMut) -> Result<Option<Self::Item>, Self::Error> {
+        // The frame header takes 8 bytes, 4 of which (the size) are already consumed by the
+        // length delimited codec. A frame that is too short to hold the rest is malformed.
+        if src.len() < 4 {
+            return Err(Error::DecodeError(
+                "Frame is smaller than the frame header".to_string(),
+            ));
+        }
         let doff = src.get_u8();
         let ftype = src.get_u8();
         let channel = src.get_u16();
